@@ -778,8 +778,12 @@ func (db *DB) newTransaction(update, isManaged bool) *Txn {
 	txn := &Txn{
 		update: update,
 		db:     db,
-		count:  1,                       // One extra entry for BitFin.
-		size:   int64(len(txnKey) + 10), // Some buffer for the extra entry.
+		count:  1, // One extra entry for BitFin.
+		// Reserve room for the extra entry as sendToWriteCh will account it at commit time: its
+		// key with the 8 byte timestamp, a value of up to 20 decimal digits of the commit
+		// timestamp, and 2 bytes of meta. A smaller reservation lets a transaction whose writes
+		// were all accepted fail Commit with ErrTxnTooBig.
+		size: int64(len(txnKey) + 8 + 20 + 2),
 	}
 	if update {
 		if db.opt.DetectConflicts {
